@@ -304,6 +304,7 @@ def history_bmc(e, code, maps, q, res, depth, registered, g,
     deliveries = bv(0, 8)
     tstreak = bv(0, 8)               # consecutive deliveries returned passive
     bad_tstreak = []
+    bad_tstreak3 = []
     streak = bv(0, 8)                # consecutive deliveries without RUN
     pstreak = bv(0, 8)               # consecutive deliveries handed to user space
     bad_streak, bad_drop, bad_age, bad_pstreak = [], [], [], []
@@ -358,6 +359,7 @@ def history_bmc(e, code, maps, q, res, depth, registered, g,
         cons.append(ts2 == ntstreak)
         tstreak = ts2
         bad_tstreak.append(UGE(tstreak, bv(2, 8)))
+        bad_tstreak3.append(UGE(tstreak, bv(3, 8)))
         bad_pstreak.append(UGE(pstreak, bv(3, 8)))
         p2, i2, a2 = [], [], []
         for k in range(NS):
@@ -372,6 +374,7 @@ def history_bmc(e, code, maps, q, res, depth, registered, g,
     res["states"] += depth
     return dict(cons=cons, streak=bad_streak, drop=bad_drop, age=bad_age,
                 tv=trace_vars, S=S, pstreak=bad_pstreak, tstreak=bad_tstreak,
+                tstreak3=bad_tstreak3,
                 left=And(Or(*present), UGE(deliveries, bv(6, 8))),
                 deliveries=deliveries)
 
@@ -489,7 +492,9 @@ def main(tier, replay_file=None):
                     ("drop", "every delivered frame is tail-called, returned "
                              "to the bus or handed to user space"),
                     ("pstreak", "never 3 consecutive frames handed to user "
-                                "space without running the group's program")]),
+                                "space without running the group's program"),
+                    ("tstreak3", "never 3 consecutive frames returned to the "
+                                 "bus without running the group's program")]),
                 (False, dict(), [
                     ("drop", "every delivered frame is returned to the bus or "
                              "handed to user space"),
